@@ -1,0 +1,7 @@
+//go:build !windows && !verif
+
+package daemon
+
+// verifPause marks a point at which a verification build can hold the launcher.
+// It does nothing in normal builds.
+func verifPause(string) {}
